@@ -85,6 +85,7 @@ impl Prop for P {
                 if switched {
                     cx.class("emit:born-raw-switched-to-zlib");
                 }
+                vensure!(c.data_format() != miniz_oxide::DataFormat::Raw, "c09:data_format-getter", "a compressor configured for zlib reports data_format() = Raw ({cfg:?}, born raw: {switched})");
                 let run = drive_compress(&mut c, &x, sched, *driver)?;
                 let o = &run.out;
                 vensure!(o.len() >= 6, "c09:emit-too-short", "zlib output of {} bytes", o.len());
